@@ -22,6 +22,8 @@ type Env struct {
 	pkg    *ssa.Package
 	inOld  bool
 	side   []*Term // side facts generated during evaluation (range facts of UFs)
+	// adaptation search: an integer VARIABLE standing where a real is expected is a sort error (only literals are promoted)
+	noPromote bool
 }
 
 type nilSpec struct{}
@@ -453,9 +455,9 @@ func (x *Exec) evalBinop(env *Env, e *Expr) (Val, error) {
 		return nil, fmt.Errorf("operands of %s are not terms (%T, %T) in %s", op, av, bv, e)
 	}
 	// integer literals compared / combined with reals are promoted
-	if a.Sort == SReal && b.Sort == SInt {
+	if a.Sort == SReal && b.Sort == SInt && (!env.noPromote || b.IsLit()) {
 		b = App("to_real", SReal, b)
-	} else if b.Sort == SReal && a.Sort == SInt {
+	} else if b.Sort == SReal && a.Sort == SInt && (!env.noPromote || a.IsLit()) {
 		a = App("to_real", SReal, a)
 	}
 	if a.Sort != b.Sort {
